@@ -134,6 +134,22 @@ void harness(void)
 #endif
 
 	expect_own = old_size;
+#if MODE == 3
+	/* C13 O-2: every file operation (write, read-back for comparison,
+	   truncate) may fail: the failure must surface as an error return */
+	vp_io_may_fail = 1;
+	for (k = 0; k < NB; ++k) {
+		ret = write_data_block(&wr->base, NULL, size[k], cks[k], flags[k], data[k], &loc);
+		if (ret != 0)
+			break;
+	}
+	VP_ASSERT((ret != 0) == (vp_io_failed != 0), "C13: the block writer fails exactly when a file operation failed (no swallowed I/O error)");
+	if (ret != 0)
+		VP_REACH("io_error_reported");
+	else
+		VP_REACH("stored");
+	return;
+#endif
 	for (k = 0; k < NB; ++k) {
 		ret = write_data_block(&wr->base, NULL, size[k], cks[k], flags[k] & ~SQFS_BLK_FIRST_BLOCK | (k == 0 ? SQFS_BLK_FIRST_BLOCK : 0),
 				       data[k], &loc);
